@@ -358,6 +358,13 @@ def c20_case(draw, tier, interpreted):
         args = [mat]
         if draw(st.booleans()):
             cfg["var"], cfg["dom"] = "max_regret", "min_cost"
+    if model == "knapsack" and draw(st.integers(0, 2)) > 0:
+        n = draw(st.integers(2, 7 if tier == "quick" else 10))
+        weights = [draw(st.integers(1, 30)) for _ in range(n)]
+        volumes = [draw(st.integers(1, 9)) for _ in range(n)]
+        args = [weights, volumes, draw(st.integers(0, sum(volumes) + 1))]
+        whats = ["opt", "count"]
+        what = draw(st.sampled_from(whats))
     if model == "magic_sequence" and draw(st.booleans()):
         cfg["decision"] = "reversed"
     case = {"model": model, "args": args, "cfg": cfg, "what": what}
